@@ -452,13 +452,45 @@ func (vm *VM) extractLatestOutputBlock(ctx context.Context) (*chain.OutputBlock,
 	if err != nil {
 		return nil, fmt.Errorf("failed to get last accepted height: %w", err)
 	}
-	if lastIndexedHeight != stateHeight && lastIndexedHeight != stateHeight+1 {
+	if lastIndexedHeight < stateHeight {
 		return nil, fmt.Errorf("cannot extract latest output block from invalid state with last indexed height %d and state height %d", lastIndexedHeight, stateHeight)
 	}
 
-	// If the heights match exactly, we must have stored the last execution results
-	if lastIndexedHeight == stateHeight {
-		resultBytes, err := vm.executionResultsDB.Get([]byte{lastResultKey})
+	// The state may lag behind the index, since blocks are indexed when they are accepted and
+	// committed to state asynchronously. Return the output block that matches the state; the
+	// blocks indexed above it are re-processed from there.
+	executionResults, err := vm.getExecutionResults(stateHeight)
+	if err != nil {
+		return nil, err
+	}
+	blk, err := vm.chainStore.GetBlockByHeight(ctx, stateHeight)
+	if err != nil {
+		return nil, fmt.Errorf("failed to get block at latest state height %d: %w", stateHeight, err)
+	}
+	return &chain.OutputBlock{
+		ExecutionBlock:   blk,
+		View:             vm.stateDB,
+		ExecutionResults: executionResults,
+	}, nil
+}
+
+// executionResultsKey alternates between two slots, such that writing the results of
+// block h before committing its state keeps the results of block h-1.
+func executionResultsKey(height uint64) []byte {
+	return []byte{lastResultKey + byte(height%2)}
+}
+
+// getExecutionResults returns the stored execution results of the block at [height].
+func (vm *VM) getExecutionResults(height uint64) (*chain.ExecutionResults, error) {
+	if height == 0 {
+		// genesis has no execution results
+		return &chain.ExecutionResults{}, nil
+	}
+	for _, key := range [][]byte{executionResultsKey(height), executionResultsKey(height + 1)} {
+		resultBytes, err := vm.executionResultsDB.Get(key)
+		if err == database.ErrNotFound {
+			continue
+		}
 		if err != nil {
 			return nil, fmt.Errorf("failed to fetch last execution results: %w", err)
 		}
@@ -469,38 +501,16 @@ func (vm *VM) extractLatestOutputBlock(ctx context.Context) (*chain.OutputBlock,
 		if err != nil {
 			return nil, fmt.Errorf("failed to parse execution results height: %w", err)
 		}
-		if executionResultsHeight != stateHeight {
-			return nil, fmt.Errorf("execution results height %d does not match state height %d", executionResultsHeight, stateHeight)
-		}
-		blk, err := vm.chainStore.GetBlockByHeight(ctx, stateHeight)
-		if err != nil {
-			return nil, fmt.Errorf("failed to get block at latest state height %d: %w", stateHeight, err)
+		if executionResultsHeight != height {
+			continue
 		}
 		executionResults, err := chain.ParseExecutionResults(resultBytes[:len(resultBytes)-consts.Uint64Len])
 		if err != nil {
 			return nil, fmt.Errorf("failed to unmarshal execution results for last accepted block: %w", err)
 		}
-		return &chain.OutputBlock{
-			ExecutionBlock:   blk,
-			View:             vm.stateDB,
-			ExecutionResults: executionResults,
-		}, nil
+		return executionResults, nil
 	}
-
-	// The last indexedHeight must be stateHeight+1, so we can execute the last block to populate
-	// execution results
-	blk, err := vm.chainStore.GetBlockByHeight(ctx, stateHeight+1)
-	if err != nil {
-		return nil, fmt.Errorf("failed to get block at latest state height %d: %w", stateHeight, err)
-	}
-	outputBlock, err := vm.chain.Execute(ctx, vm.stateDB, blk, false)
-	if err != nil {
-		return nil, fmt.Errorf("failed to execute block at latest state height %d: %w", stateHeight, err)
-	}
-	if _, err := vm.AcceptBlock(ctx, nil, outputBlock); err != nil {
-		return nil, err
-	}
-	return outputBlock, nil
+	return nil, fmt.Errorf("no execution results stored for state height %d", height)
 }
 
 func (vm *VM) initGenesisAsLastAccepted(ctx context.Context) (*chain.OutputBlock, error) {
@@ -683,7 +693,7 @@ func (vm *VM) VerifyBlock(ctx context.Context, parent *chain.OutputBlock, block 
 func (vm *VM) AcceptBlock(ctx context.Context, _ *chain.OutputBlock, block *chain.OutputBlock) (*chain.OutputBlock, error) {
 	resultBytes := block.ExecutionResults.Marshal()
 	resultBytes = binary.BigEndian.AppendUint64(resultBytes, block.Hght)
-	if err := vm.executionResultsDB.Put([]byte{lastResultKey}, resultBytes); err != nil {
+	if err := vm.executionResultsDB.Put(executionResultsKey(block.Hght), resultBytes); err != nil {
 		return nil, fmt.Errorf("failed to write execution results: %w", err)
 	}
 
